@@ -639,6 +639,140 @@ func init() {
 					}
 				},
 			},
+			{
+				// covers of thousands of tiles (size-dependent paths), judged without expanding: every input tile has exactly
+				// one ancestor-or-self in the output, and the output's area (sum of 4^(zoom - z)) equals the number of input tiles
+				Name: "merge-up-large", Count: h.Fixed(60, 6000), BudgetSec: 60,
+				Run: func(c *h.Ctx, idx uint64, r *h.Rand) {
+					zc := uint(r.Range(7, 12))
+					zoom := maptile.Zoom(zc)
+					m := 1 << zc
+					in := maptile.Set{}
+					kind := int(idx % 4)
+					side := []int{48, 64, 96, 128}[r.Intn(4)]
+					if side > m {
+						side = m
+					}
+					x0, y0 := r.Intn(m-side+1), r.Intn(m-side+1)
+					switch kind {
+					case 0: // random fill of a block with a given density
+						den := []int{50, 75, 90, 99}[r.Intn(4)]
+						for x := x0; x < x0+side; x++ {
+							for y := y0; y < y0+side; y++ {
+								if r.Intn(100) < den {
+									in[maptile.Tile{X: uint32(x), Y: uint32(y), Z: zoom}] = true
+								}
+							}
+						}
+					case 1: // every sibling quad independently: full, empty, or a random partial group
+						for x := x0 &^ 1; x < x0+side; x += 2 {
+							for y := y0 &^ 1; y < y0+side; y += 2 {
+								mask := 15
+								switch r.Intn(4) {
+								case 0:
+									mask = 0
+								case 1:
+									mask = r.Intn(16)
+								}
+								for b := 0; b < 4; b++ {
+									if mask&(1<<uint(b)) != 0 {
+										in[maptile.Tile{X: uint32(x + b&1), Y: uint32(y + b>>1), Z: zoom}] = true
+									}
+								}
+							}
+						}
+					case 2: // the cover of a large triangle (a real cover with ragged edges)
+						lo, hi := maptile.Tile{X: uint32(x0), Y: uint32(y0 + side - 1), Z: zoom}.Bound(), maptile.Tile{X: uint32(x0 + side - 1), Y: uint32(y0), Z: zoom}.Bound()
+						w, hgt := hi.Max[0]-lo.Min[0], hi.Max[1]-lo.Min[1]
+						pt := func() orb.Point { return orb.Point{lo.Min[0] + r.Float64()*w, lo.Min[1] + r.Float64()*hgt} }
+						tri := orb.Ring{pt(), pt(), pt()}
+						tri = append(tri, tri[0])
+						cov, err := tilecover.Geometry(orb.Polygon{tri}, zoom)
+						if err != nil {
+							return
+						}
+						in = cov
+					default: // disc-shaped
+						cx, cy, rad := float64(x0)+float64(side)/2, float64(y0)+float64(side)/2, float64(side)/2
+						for x := x0; x < x0+side; x++ {
+							for y := y0; y < y0+side; y++ {
+								if math.Hypot(float64(x)+0.5-cx, float64(y)+0.5-cy) <= rad {
+									in[maptile.Tile{X: uint32(x), Y: uint32(y), Z: zoom}] = true
+								}
+							}
+						}
+					}
+					in = trueTiles(in)
+					if len(in) == 0 {
+						return
+					}
+					target := maptile.Zoom(r.Intn(int(zc) + 1))
+					if r.Bool() {
+						target = maptile.Zoom(r.Range(int(zc)-4, int(zc)))
+					}
+					d := func() map[string]interface{} {
+						return map[string]interface{}{"input_tiles": len(in), "shape": kind, "cover_zoom": zc, "target_zoom": target, "block": []int{x0, y0, side}}
+					}
+					clone := func() maptile.Set {
+						o := make(maptile.Set, len(in))
+						for t := range in {
+							o[t] = true
+						}
+						return o
+					}
+					var out maptile.Set
+					if pv, st := h.Catch(func() { out = tilecover.MergeUp(clone(), target) }); pv != nil {
+						c.Fail("", "MergeUp panicked on a large cover", map[string]interface{}{"case": d(), "panic": sv(pv), "stack": st})
+						return
+					}
+					c.Eval()
+					out = trueTiles(out)
+					area := 0.0
+					for t := range out {
+						if t.Z < target || t.Z > zoom {
+							c.Fail("", "MergeUp (large cover): merged tile outside [target zoom, cover zoom]", map[string]interface{}{"case": d(), "tile": sv(t)})
+							return
+						}
+						area += math.Pow(4, float64(zoom-t.Z))
+					}
+					for t := range in {
+						hits := 0
+						for a := t; ; a = a.Parent() {
+							if out[a] {
+								hits++
+							}
+							if a.Z <= target || a.Z == 0 {
+								break
+							}
+						}
+						if hits != 1 {
+							c.Fail("", "MergeUp (large cover): an input tile is covered by "+fmt.Sprint(hits)+" output tiles instead of exactly one", map[string]interface{}{"case": d(), "tile": sv(t)})
+							return
+						}
+					}
+					if area != float64(len(in)) {
+						c.Fail("", "MergeUp (large cover): the merged set does not cover the same area as the input", map[string]interface{}{"case": d(), "output_area_in_cover_zoom_tiles": area})
+						return
+					}
+					for t := range out {
+						if t.Z <= target {
+							continue
+						}
+						sib := t.Siblings()
+						if out[sib[0]] && out[sib[1]] && out[sib[2]] && out[sib[3]] {
+							c.Fail("", "MergeUp (large cover): a complete sibling quad is left unmerged above the target zoom", map[string]interface{}{"case": d(), "quad_parent": sv(t.Parent())})
+							return
+						}
+					}
+					if p4 := tilecover.MergeUpPartial(clone(), target, 4); !sameSet(p4, out) {
+						c.Fail("", "MergeUpPartial(count=4) differs from MergeUp on a large cover", d())
+					}
+					c.Eval()
+					c.Max("tiles in one cover given to MergeUp", float64(len(in)), nil)
+					c.Nontrivial(h.Mix(uint64(len(in)), uint64(kind), uint64(target), uint64(x0), uint64(y0)))
+					c.Sample(map[string]interface{}{"case": d(), "output_tiles": len(out)})
+				},
+			},
 		},
 	})
 }
